@@ -681,6 +681,11 @@ func (r *Reconciler) reconcileApply(ctx context.Context, proposal *configapi.Pro
 		setResponse, err := conn.Set(ctx, setRequest)
 		if err != nil {
 			code := status.Code(err)
+			// The southbound client returns onos-lib-go typed errors, which carry no gRPC status (status.Code is then
+			// always Unknown): recover the device's code from the typed error
+			if _, isStatus := status.FromError(err); !isStatus {
+				code = errors.Status(err).Code()
+			}
 			switch code {
 			case codes.Unavailable, codes.Canceled, codes.DeadlineExceeded:
 				log.Errorf("Failed sending SetRequest %+v", setRequest, err)
